@@ -210,6 +210,45 @@ func (e *env) whLine(k whCase, prov string, seq *int) (string, string) {
 	return line, fmt.Sprint(res.Status)
 }
 
+// whuLine: PUT …/webhooks/{name} against a provisioner that has the webhook `keep` (id and secret known)
+func (e *env) whuLine(k whCase, prov, keepID, keepSecret string, nameKind, secretKind, idKind int) (string, string) {
+	name := map[int]string{0: "keep", 1: "unknown-hook", 2: ""}[nameKind]
+	secret := map[int]string{0: "", 1: keepSecret, 2: "b3RoZXI="}[secretKind]
+	id := map[int]string{0: "", 1: keepID, 2: "other-id"}[idKind]
+	w := &linkedca.Webhook{Name: name, Url: k.url, Kind: linkedca.Webhook_Kind(k.kind), Secret: secret, Id: id}
+	body := string(must(protojson.Marshal(w)))
+	if k.notJS {
+		body = `{"name": `
+	}
+	u, uerr := url.Parse(k.url)
+	host, https, user := false, false, false
+	if uerr == nil {
+		host, https, user = u.Host != "", u.Scheme == "https", u.User != nil
+	}
+	_, kindKnown := linkedca.Webhook_Kind_name[k.kind]
+	kindKnown = kindKnown && k.kind != int32(linkedca.Webhook_NO_KIND)
+	line := fmt.Sprintf("wh op=update p=%s n=%s u=%s h=%s s=%s i=%s k=%s sec=%s id=%s taken=%s sd=%s idd=%s", c.B(!k.notJS), c.B(name != ""), c.B(uerr == nil), c.B(host), c.B(https), c.B(user),
+		c.B(kindKnown), c.B(secret != ""), c.B(id != ""), c.B(nameKind == 0), c.B(secretKind == 2), c.B(idKind == 2))
+	pathName := name
+	if pathName == "" {
+		pathName = "keep"
+	}
+	res := e.do("PUT", "/admin/provisioners/"+prov+"/webhooks/"+pathName, body)
+	switch {
+	case res.Panic != "":
+		return line, "crash"
+	case res.Status == 201 || res.Status == 200:
+		return line, "proceed"
+	case res.Status == 400:
+		return line, "bad"
+	case res.Status == 404:
+		return line, "notfound"
+	case res.Status == 409:
+		return line, "conflict"
+	}
+	return line, fmt.Sprint(res.Status)
+}
+
 type bodyCase struct {
 	x, su, sh *linkedca.Durations
 	tmpl      string // "", good, badtemplate, baddata, badssh, badsshdata
@@ -322,6 +361,27 @@ func runValid(o *c.Out, n int, replay string) {
 		}
 		emit(e.whLine(k, "vhooks", &seq))
 	}
+	// webhook update: the webhook `keep`, then bodies naming it / another / nothing, with its own or another secret and id
+	var keep linkedca.Webhook
+	if res := e.do("POST", "/admin/provisioners/vhooks/webhooks", whBody("keep", "")); res.Status != 201 || protojson.Unmarshal(res.Body, &keep) != nil {
+		must(0, fmt.Errorf("cannot create the webhook for the update lines: %d %s", res.Status, res.Body))
+	}
+	for nameKind := 0; nameKind < 3; nameKind++ {
+		for secretKind := 0; secretKind < 3; secretKind++ {
+			for idKind := 0; idKind < 3; idKind++ {
+				emit(e.whuLine(whCase{url: whURLs[0], kind: 1}, "vhooks", keep.Id, keep.Secret, nameKind, secretKind, idKind))
+			}
+		}
+	}
+	for _, u := range whURLs {
+		emit(e.whuLine(whCase{url: u, kind: 2}, "vhooks", keep.Id, keep.Secret, 0, 1, 1))
+	}
+	emit(e.whuLine(whCase{url: whURLs[0], kind: 0}, "vhooks", keep.Id, keep.Secret, 0, 0, 0))
+	emit(e.whuLine(whCase{url: whURLs[0], kind: 1, notJS: true}, "vhooks", keep.Id, keep.Secret, 0, 0, 0))
+	for i := 0; i < 2*n; i++ {
+		emit(e.whuLine(whCase{url: c.Pick(r, whURLs), kind: int32(c.Pick(r, []int{1, 1, 2, 0, 9})), notJS: r.Chance(1, 20)}, "vhooks", keep.Id, keep.Secret,
+			c.Pick(r, []int{0, 0, 0, 1, 2}), r.Intn(3), r.Intn(3)))
+	}
 	for _, k := range []bodyCase{{}, {x: &linkedca.Durations{Min: "5m", Max: "24h", Default: "1h"}}, {x: &linkedca.Durations{Max: "1h", Default: "2h"}},
 		{su: &linkedca.Durations{Max: "1h", Default: "2h"}}, {sh: &linkedca.Durations{Min: "2h", Max: "1h"}}, {x: &linkedca.Durations{Min: "0s"}}, {x: &linkedca.Durations{Max: "1h"}},
 		{tmpl: "good"}, {tmpl: "badtemplate"}, {tmpl: "baddata"}, {tmpl: "badssh"}, {tmpl: "badsshdata"}, {notJS: true}, {x: &linkedca.Durations{Default: "-1h"}}} {
@@ -339,6 +399,55 @@ func runValid(o *c.Out, n int, replay string) {
 			k.sh = pickD()
 		}
 		emit(e.bodyLine(k, &seq))
+	}
+	// the provisioner-policy sub-router, reachable with a hosted admin database: a provisioner without
+	// administrators (no lock-out question), the handler gates only
+	h := newEnv()
+	defer h.close()
+	h.hosted = true
+	h.wrap()
+	if res := h.do("POST", "/admin/provisioners", h.provBody("vpol", "")); res.Status != 201 {
+		must(0, fmt.Errorf("cannot create the provisioner for the policy lines: %d %s", res.Status, res.Body))
+	}
+	has := false
+	pp := func(verb, variant string) {
+		body, parses, valid := `{"x509":{"allow":{"dns":["*.local"]}}}`, true, true
+		switch variant {
+		case "notjson":
+			body, parses = `{"x509": `, false
+		case "badname":
+			body, valid = `{"x509":{"allow":{"dns":["**.bad..name"]}}}`, false
+		case "badssh":
+			body, valid = `{"ssh":{"user":{"allow":{"emails":["not an address"]}}}}`, false
+		}
+		m := map[string]string{"create": "POST", "update": "PUT", "delete": "DELETE"}[verb]
+		if verb == "delete" {
+			body = ""
+		}
+		line := fmt.Sprintf("pp op=%s has=%s p=%s v=%s", verb, c.B(has), c.B(parses), c.B(valid))
+		res := h.do(m, "/admin/provisioners/vpol/policy", body)
+		impl := fmt.Sprint(res.Status)
+		switch {
+		case res.Panic != "":
+			impl = "crash"
+		case res.Status == 200 || res.Status == 201:
+			impl = "proceed"
+			has = verb != "delete"
+		case res.Status == 400:
+			impl = "bad"
+		case res.Status == 404:
+			impl = "notfound"
+		case res.Status == 409:
+			impl = "conflict"
+		}
+		emit(line, impl)
+	}
+	for _, st := range [][2]string{{"update", ""}, {"delete", ""}, {"create", "notjson"}, {"create", "badname"}, {"create", "badssh"}, {"create", ""}, {"create", ""}, {"create", "notjson"},
+		{"update", "notjson"}, {"update", "badname"}, {"update", ""}, {"delete", ""}, {"delete", ""}, {"update", "badssh"}, {"create", ""}, {"delete", "notjson"}} {
+		pp(st[0], st[1])
+	}
+	for i := 0; i < n; i++ {
+		pp(c.Pick(r, []string{"create", "update", "delete"}), c.Pick(r, []string{"", "", "notjson", "badname", "badssh"}))
 	}
 	_ = strings.TrimSpace
 }
